@@ -129,7 +129,7 @@ Proof. intros [] []; simpl; split; intros; try reflexivity; try discriminate. Qe
 Lemma generate_scatter_ok k data columns cols' fig :
   generate_scatter k data columns = (cols', inr fig) ->
   length (requested_axes k data columns) = k /\
-  (columns <> [] -> length columns = k /\ cols' = columns ++ [data_col]) /\
+  (columns <> [] -> length columns = k) /\ cols' = columns /\
   (forall c, In c (requested_axes k data columns) -> In c (tcols data)) /\
   fig = px_scatter label_eqb
           (map (fun r => (map (tcell r) (requested_axes k data columns), snd r)) (trows data)).
@@ -149,7 +149,6 @@ Proof.
   - rewrite firstn_length. lia.
   - unfold cols in El. destruct columns; [congruence|].
     rewrite app_length in El. simpl in *. lia.
-  - destruct columns; [congruence | reflexivity].
   - intros c Hc. rewrite forallb_forall in Ef. specialize (Ef c Hc).
     unfold mem in Ef. apply existsb_exists in Ef. destruct Ef as (y & Hy & E).
     apply Nat.eqb_eq in E. now subst.
@@ -184,7 +183,7 @@ Theorem plot_rows_multiset_nd :
                 (tagged_points axes Real real ++ tagged_points axes Synthetic synth).
 Proof.
   intros k t real synth columns cols' fig H axes.
-  apply plot_nd_ok, generate_scatter_ok in H. destruct H as (H1 & H2 & H3 & H4).
+  apply plot_nd_ok, generate_scatter_ok in H. destruct H as (H1 & H2 & Hcols & H3 & H4).
   split; [exact H1|]. split.
   - intros Hne. subst axes. unfold requested_axes. destruct columns; [congruence | reflexivity].
   - subst fig. fold (compare_data real synth). fold axes. rewrite compare_rows.
@@ -247,7 +246,7 @@ Theorem scatter_rows_multiset_nd :
           end.
 Proof.
   intros k t data columns cols' fig H axes.
-  apply plot_nd_ok, generate_scatter_ok in H. destruct H as (H1 & H2 & H3 & H4).
+  apply plot_nd_ok, generate_scatter_ok in H. destruct H as (H1 & H2 & Hcols & H3 & H4).
   fold axes in H4.
   assert (Hrows : map (fun r => (map (tcell r) axes, snd r)) (trows (set_label Real data)) =
                   tagged_points axes Real data).
@@ -313,52 +312,45 @@ Qed.
 Print Assumptions plot_rows_count_occ.
 
 (* ------------------------------------------------------------------ *)
-(* The caller's `columns` list is mutated (ties to the effect analysis) *)
+(* The caller's `columns` list is NOT touched (ties to the effect analysis). *)
+(* History: before the repair of finding F16b the helpers appended 'Data' to *)
+(* the caller's list; the theorems here were `columns_mutated` (the list came *)
+(* back as columns ++ [data_col]) and `second_call_fails` (ErrColumnCount on a *)
+(* second identical call).                                                    *)
 (* ------------------------------------------------------------------ *)
 
-(* whenever the title code does not fail first, a non-empty `columns` comes back
-   with 'Data' appended -- even when the call then raises *)
-Theorem columns_mutated :
+(* whatever happens (figure, ValueError, IndexError) the list comes back as it was given *)
+Theorem columns_untouched :
+  forall k t data columns, fst (plot_nd k t data columns) = columns.
+Proof.
+  intros k t data columns. unfold plot_nd.
+  destruct (title_ok k t data columns); [|reflexivity].
+  unfold generate_scatter. destruct (negb _); [reflexivity|]. destruct (forallb _ _); reflexivity.
+Qed.
+Print Assumptions columns_untouched.
+
+(* ... hence a second, identical call with the same list object gives the same outcome (same figure) *)
+Theorem second_call_same :
   forall k t data columns,
-    columns <> [] -> title_ok k t data columns = true ->
-    fst (plot_nd k t data columns) = columns ++ [data_col] /\
-    fst (plot_nd k t data columns) <> columns.
-Proof.
-  intros k t data columns Hne Ht. unfold plot_nd. rewrite Ht.
-  assert (E : fst (generate_scatter k data columns) = columns ++ [data_col]).
-  { unfold generate_scatter. destruct columns as [|c cs]; [congruence|].
-    destruct (negb _); [reflexivity|]. destruct (forallb _ _); reflexivity. }
-  split; [exact E|]. rewrite E. intros H.
-  apply (f_equal (@length name)) in H. rewrite app_length in H. simpl in H. lia.
-Qed.
-Print Assumptions columns_mutated.
+    plot_nd k t data (fst (plot_nd k t data columns)) = plot_nd k t data columns.
+Proof. intros k t data columns. now rewrite columns_untouched. Qed.
+Print Assumptions second_call_same.
 
-(* ... hence a second, identical call with the same list object raises ValueError *)
-Theorem second_call_fails :
+Corollary second_call_same_figure :
   forall k t data columns cols' fig,
-    columns <> [] ->
     plot_nd k t data columns = (cols', inr fig) ->
-    snd (plot_nd k t data cols') = inl ErrColumnCount.
+    cols' = columns /\ plot_nd k t data cols' = (cols', inr fig).
 Proof.
-  intros k t data columns cols' fig Hne H.
-  apply plot_nd_ok, generate_scatter_ok in H. destruct H as (_ & H2 & _).
-  destruct (H2 Hne) as [Hlen ->].
-  unfold plot_nd, title_ok.
-  assert (Hl : length (columns ++ [data_col]) = S k) by (rewrite app_length; simpl; lia).
-  destruct (columns ++ [data_col]) as [|c cs] eqn:E; [simpl in Hl; lia|].
-  replace (k <=? length (c :: cs)) with true by (symmetry; apply Nat.leb_le; lia).
-  rewrite orb_true_r. unfold generate_scatter.
-  replace (Nat.eqb (length ((c :: cs) ++ [data_col])) (S k)) with false; [reflexivity|].
-  symmetry. apply Nat.eqb_neq. rewrite app_length. simpl length in *. lia.
+  intros k t data columns cols' fig H.
+  pose proof (columns_untouched k t data columns) as E. rewrite H in E. simpl in E. subst cols'.
+  split; [reflexivity | exact H].
 Qed.
-Print Assumptions second_call_fails.
 
-Corollary compare_2d_second_call_fails :
+Corollary compare_2d_second_call_same :
   forall t real synth columns cols' fig,
-    columns <> [] ->
     compare_2d t real synth columns = (cols', inr fig) ->
-    snd (compare_2d t real synth cols') = inl ErrColumnCount.
-Proof. intros t real synth. apply second_call_fails. Qed.
+    compare_2d t real synth cols' = (cols', inr fig).
+Proof. intros t real synth columns cols' fig H. now apply (second_call_same_figure 2 t _ columns). Qed.
 
 (* with columns=None ([]) nothing of the caller is touched *)
 Theorem columns_none_untouched :
@@ -373,7 +365,7 @@ Qed.
 (* ------------------------------------------------------------------ *)
 Example ex_compare_2d :
   compare_2d false fr_real fr_synth [1; 2] =
-  ([1; 2; 0],
+  ([1; 2],
    inr [(Real, [[VNum 1; VNum 5]; [VNum 2; VNum 6]]);
         (Synthetic, [[VNaN; VNum 1]; [VNaN; VNum 2]])]).
 Proof. vm_compute. reflexivity. Qed.
@@ -395,8 +387,8 @@ Example ex_px_interleaved :
 Proof. reflexivity. Qed.
 
 Example ex_second_call :
-  snd (compare_2d false fr_real fr_synth [1; 2; 0]) = inl ErrColumnCount.
-Proof. exact (compare_2d_second_call_fails false fr_real fr_synth [1; 2] _ _ ltac:(discriminate) ex_compare_2d). Qed.
+  compare_2d false fr_real fr_synth (fst (compare_2d false fr_real fr_synth [1; 2])) = compare_2d false fr_real fr_synth [1; 2].
+Proof. exact (second_call_same 2 false _ [1; 2]). Qed.
 
 Example ex_scatter_3d_nonvacuous :
   exists cols' fig, scatter_3d false fr_real [1; 2; 1] = (cols', inr fig) /\
@@ -414,9 +406,9 @@ Proof. vm_compute. reflexivity. Qed.
 (* the error paths *)
 Example ex_index_error : scatter_2d false fr_real [1] = ([1], inl ErrIndex).
 Proof. reflexivity. Qed.
-Example ex_value_error_mutates : scatter_2d true fr_real [1] = ([1; 0], inl ErrColumnCount).
+Example ex_value_error_keeps_columns : scatter_2d true fr_real [1] = ([1], inl ErrColumnCount).
 Proof. reflexivity. Qed.
-Example ex_no_such_column : compare_2d false fr_real fr_synth [1; 9] = ([1; 9; 0], inl ErrNoSuchColumn).
+Example ex_no_such_column : compare_2d false fr_real fr_synth [1; 9] = ([1; 9], inl ErrNoSuchColumn).
 Proof. reflexivity. Qed.
 Example ex_union_too_wide : compare_2d false fr_real fr_synth [] = ([], inl ErrColumnCount).
 Proof. reflexivity. Qed.
